@@ -547,6 +547,18 @@ pub fn sites(w: &WPacket) -> Vec<Site> {
     v
 }
 
+/// an out-of-range byte >= lo, biased towards the boundary (lo itself, lo+1, 0x7F, 0x80, 0xFF)
+fn bad_byte(t: &mut Tape, lo: u8) -> u8 {
+    match t.pick(8) {
+        0 | 1 | 2 => lo,
+        3 => lo.saturating_add(1),
+        4 => 0x7F.max(lo),
+        5 => 0x80.max(lo),
+        6 => 0xFF,
+        _ => lo + t.pick(256 - lo as usize) as u8,
+    }
+}
+
 /// a value of the right wire type for property `id`
 fn sample_value(id: u8, t: &mut Tape) -> PVal {
     match prop_info(id).map(|x| x.1) {
@@ -597,7 +609,7 @@ pub fn apply(orig: &WPacket, site: &Site, t: &mut Tape) -> Option<Mutated> {
             (all(ExpErr::ZeroPid), "packet identifier 0".into())
         }
         Entry::SubQos => {
-            let b = 3 + t.pick(253) as u8;
+            let b = bad_byte(t, 3);
             match &mut w.body {
                 Body::Subscribe { topics, .. } => topics.get_mut(site.idx)?.1 = b,
                 _ => return None,
@@ -633,7 +645,7 @@ pub fn apply(orig: &WPacket, site: &Site, t: &mut Tape) -> Option<Mutated> {
             (all(ExpErr::InvalidConnectFlags(f)), "reserved connect flag set".into())
         }
         Entry::ConnackFlags => {
-            let b = 2 + t.pick(254) as u8;
+            let b = bad_byte(t, 2);
             match &mut w.body {
                 Body::Connack { flags, .. } => *flags = b,
                 _ => return None,
@@ -641,7 +653,7 @@ pub fn apply(orig: &WPacket, site: &Site, t: &mut Tape) -> Option<Mutated> {
             (all(ExpErr::InvalidConnackFlags(b)), format!("connack flags byte {:#04x}", b))
         }
         Entry::V3Rc => {
-            let b = 6 + t.pick(250) as u8;
+            let b = bad_byte(t, 6);
             match &mut w.body {
                 Body::Connack { code, .. } => *code = b,
                 _ => return None,
@@ -649,7 +661,10 @@ pub fn apply(orig: &WPacket, site: &Site, t: &mut Tape) -> Option<Mutated> {
             (all(ExpErr::InvalidConnectReturnCode(b)), format!("return code {:#04x}", b))
         }
         Entry::V3SubRc => {
-            let mut b = t.u8();
+            let mut b = [3u8, 4, 0x7F, 0x81, 0xFF, 0x10][t.pick(6)];
+            if t.flag() {
+                b = t.u8();
+            }
             if [0u8, 1, 2, 0x80].contains(&b) {
                 b = 3;
             }
@@ -661,7 +676,12 @@ pub fn apply(orig: &WPacket, site: &Site, t: &mut Tape) -> Option<Mutated> {
         }
         Entry::V5Reason => {
             let table = reason_codes(ty);
-            let mut b = t.u8();
+            // neighbours of legal codes, codes of other packet types, or any byte
+            let mut b = match t.pick(4) {
+                0 => table[t.pick(table.len())].wrapping_add(1),
+                1 => [0x01u8, 0x04, 0x10, 0x11, 0x18, 0x19, 0x80, 0x92, 0x9E, 0xA2, 0xA3, 0xFF][t.pick(12)],
+                _ => t.u8(),
+            };
             while table.contains(&b) {
                 b = b.wrapping_add(1);
             }
@@ -768,7 +788,7 @@ pub fn apply(orig: &WPacket, site: &Site, t: &mut Tape) -> Option<Mutated> {
             let in_will = site.idx >= 1000;
             let ps = if in_will { will_props_mut(&mut w) } else { main_props_mut(&mut w) }?;
             let p = ps.items.get_mut(site.idx % 1000)?;
-            let b = 2 + t.pick(254) as u8;
+            let b = bad_byte(t, 2);
             p.val = PVal::Byte(b);
             (all(ExpErr::InvalidByteProperty(p.id, b)), format!("byte property {:#04x} with value {}", p.id, b))
         }
